@@ -1,6 +1,7 @@
-use std::{collections::BTreeMap, path::Path, sync::Arc};
+use std::{path::Path, sync::Arc};
 
 use codemap::{Span, Spanned};
+use indexmap::IndexMap;
 
 use crate::{
     ast::*, builtin::DISALLOWED_PLAIN_CSS_FUNCTION_NAMES, common::QuoteKind, error::SassResult,
@@ -199,7 +200,7 @@ impl<'a> CssParser<'a> {
                 name: identifier,
                 arguments: ArgumentInvocation {
                     positional: arguments,
-                    named: BTreeMap::new(),
+                    named: IndexMap::new(),
                     rest: None,
                     keyword_rest: None,
                     span: self.toks.span_from(before_args),
